@@ -440,6 +440,15 @@ func runC20(h *Harness) {
 			l.State, l.Variant = oGood, "" // configured URLs must be reachable for provisioning to be expected to succeed
 		}
 		h.Disk.OsFault = nil
+		// what an instance that was killed in the middle of a load leaves behind, in both of its name forms: the download
+		// file (crl_<digits>_tmp, from os.CreateTemp) and a staging database (crl_<uuid>_tmp); start-up removes them
+		if tp.Chance(1, 2) {
+			os.WriteFile(filepath.Join(wd, fmt.Sprintf("crl_%d_tmp", 1000000+tp.Int(8999999))), []byte("half a download"), 0600)
+			ld := filepath.Join(wd, fmt.Sprintf("crl_%08x-1f2e-11f0-9abc-0242ac12%04x_tmp", 0x10000000+tp.Int(1<<24), c))
+			os.MkdirAll(ld, 0700)
+			os.WriteFile(filepath.Join(ld, "000001.log"), []byte("x"), 0600)
+			sc["planted_leftovers"] = true
+		}
 		if err := h.Provision(n); err != nil {
 			cls := "first"
 			if c > 0 {
